@@ -30,7 +30,7 @@ def gates(tier):
     return {
         "min_decided": {a: 300 * k for a in APIS[:5]} | {APIS[5]: 1500 * k},
         "shapes": {c: 5 * k for c in ["eps_arc", "multi_initial", "nondeterministic", "acyclic", "cyclic", "dead_state",
-                                      "unreachable_state", "sr:Q", "sr:Float", "empty_language", "zero_weight_arc", "tiny_weight"]},
+                                      "unreachable_state", "sr:Q", "sr:Float", "empty_language", "zero_weight_arc", "tiny_weight", "gadget:globally-normalised"]},
         "min_events": {"determinize.subset_states": 500 * k},
         "min_hashseeds": 2,
     }
@@ -48,6 +48,16 @@ def gen_case(rng, spec):
         a = m["alphabet"][0]
         m["arcs"] += [[0, a, 1, Fr(1, 8)], [0, a, 2, Fr(3, 16)], [1, a, m["n"] - 1, Fr(1, 4)], [2, a, m["n"] - 1, Fr(1, 8)]]
         m["arcs"] = [x for x in m["arcs"] if x[0] < x[2]]
+    if rng.random() < 0.12:
+        from fractions import Fraction as Fr
+
+        # backward weight of the initial state is exactly 1 although no state is locally normalised:
+        # 0 -a/1/2-> 1 (stop 1), 0 -b/1/4-> 2 (stop 2): 1/2*1 + 1/4*2 = 1 ; plus a dead state reached from 0
+        a, b = m["alphabet"][0], m["alphabet"][-1]
+        m = {"n": 4, "names": list(range(4)) if rng.random() < 0.5 else ["q0", "q1", "q2", "q3"], "alphabet": m["alphabet"],
+             "start": [[0, Fr(1)]], "stop": [[1, Fr(1)], [2, Fr(2)]],
+             "arcs": [[0, a, 1, Fr(1, 2)], [0, b, 2, Fr(1, 4)], [0, a, 3, Fr(1, 8)]] + ([[1, b, 2, Fr(0)]] if rng.random() < 0.5 else [])}
+        return {"m": m, "R": rng.choice(["Q", "Float"]), "maxlen": 3, "gadget": "globally-normalised"}
     return {"m": m, "R": rng.choice(["Q", "Q", "Q", "Float"]), "maxlen": 4 if len(m["alphabet"]) < 3 else 3}
 
 
@@ -95,6 +105,8 @@ def run_case(case, ctx):
             cls.add("nondeterministic")
         seen.add((i, a))
     fp = codec.fingerprint(case)
+    if case.get("gadget"):
+        cls.add("gadget:" + case["gadget"])
     ctx.case(fp, bool({"eps_arc", "multi_initial", "nondeterministic"} & cls), sorted(cls) + [f"sr:{R}"])
     ctx.sample({"case": case, "classes": sorted(cls)})
     Din = lib.dense_from_case(m, "Q")
